@@ -6,9 +6,11 @@ package amm_test
 // decision) and checks that the accepted amounts never exceed the offer. Labelled bounded, never counted as proved.
 
 import (
+	"encoding/json"
 	"fmt"
 	"os"
 	"strconv"
+	"strings"
 	"testing"
 
 	sdkmath "cosmossdk.io/math"
@@ -80,4 +82,99 @@ func TestVerifC06RangedCreateWithinOffer(t *testing.T) {
 		t.Fatalf("%d of %d offers violate the law; first: %s", bad, evals, firstBad)
 	}
 	t.Logf("bounded C06: %d evaluations, %d non-trivial", evals, nontriv)
+}
+
+// BOUNDED stand-in (property C06, "a ranged pool's price always stays within its configured price range"): the price of a
+// ranged pool is derived from its reserves through approximate square roots (amm.DeriveTranslation), outside the reach of the
+// contract verifier. This test evaluates the real NewRangedPool(rx, ry, ., min, max).Price() on a grid of price ranges
+// (including very low- and very high-priced pairs) and reserves (all magnitude pairs, plus reserve ratios swept across the
+// range) and checks min <= price <= max exactly. On the pinned tree the price leaves the range by a relative error below
+// 10^-10 (or 2 units of the 18th decimal) on a fixed set of grid points (rounding of the approximate square root) - these exact (input, price) cases are
+// listed in known_excursions.txt and reported as a known finding; any other out-of-range case is a violation.
+func TestVerifC06RangedPriceWithinRange(t *testing.T) {
+	ranges := [][2]string{{"0.5", "2"}, {"1000", "4000"}, {"0.9", "1.1"}, {"0.0000000001", "0.0000000002"}, {"0.000001", "0.000003"}, {"1000000", "5000000"}, {"0.000000000000001", "0.00000000000001"}, {"0.99", "1.01"}, {"0.001", "1000"}}
+	mags := []string{"0", "1", "2", "7", "1000", "12345", "1000000", "1800000000000", "1000000000000000000", "100000000000000000000000"}
+	ratios := []string{"1", "2", "5", "10", "50", "100", "500", "1000", "1500", "5000", "100000", "100000000", "10000000000"}
+	bases := []string{"1800000000000", "1000000000000000000"}
+	known := map[string]bool{}
+	if kf := os.Getenv("VERIF_C06_KNOWN"); kf != "" {
+		if b, err := os.ReadFile(kf); err == nil {
+			for _, l := range strings.Split(string(b), "\n") {
+				if l = strings.TrimSpace(l); l != "" && !strings.HasPrefix(l, "#") {
+					known[l] = true
+				}
+			}
+		}
+	}
+	evals, bad, knownHits := 0, 0, 0
+	var firstBad, knownExample string
+	var allOut []string
+	check := func(r [2]string, rx, ry sdkmath.Int) {
+		if rx.IsZero() && ry.IsZero() {
+			return
+		}
+		minP, maxP := utils.ParseDec(r[0]), utils.ParseDec(r[1])
+		p := amm.NewRangedPool(rx, ry, sdkmath.Int{}, minP, maxP).Price()
+		evals++
+		if p.GTE(minP) && p.LTE(maxP) {
+			return
+		}
+		key := fmt.Sprintf("range=[%s,%s] rx=%s ry=%s price=%s", r[0], r[1], rx, ry, p)
+		allOut = append(allOut, key)
+		if known[key] {
+			knownHits++
+			if knownExample == "" {
+				knownExample = key
+			}
+			return
+		}
+		bad++
+		if firstBad == "" {
+			firstBad = key + " is outside of the configured range"
+		}
+	}
+	for _, r := range ranges {
+		for _, xs := range mags {
+			for _, ys := range mags {
+				rx, _ := sdkmath.NewIntFromString(xs)
+				ry, _ := sdkmath.NewIntFromString(ys)
+				check(r, rx, ry)
+			}
+		}
+		for _, bs := range bases {
+			b, _ := sdkmath.NewIntFromString(bs)
+			for _, ks := range ratios {
+				k, _ := sdkmath.NewIntFromString(ks)
+				check(r, b, b.Mul(k))
+				check(r, b.Mul(k), b)
+				check(r, b, k)
+				check(r, k, b)
+			}
+		}
+	}
+	if dump := os.Getenv("VERIF_C06_DUMP"); dump != "" {
+		os.WriteFile(dump, []byte(strings.Join(allOut, "\n")+"\n"), 0o644)
+	}
+	if out := os.Getenv("VERIF_BOUNDED_OUT"); out != "" {
+		sum := map[string]interface{}{}
+		if b, err := os.ReadFile(out); err == nil {
+			json.Unmarshal(b, &sum)
+		}
+		second := map[string]interface{}{
+			"function": "amm.NewRangedPool(...).Price() (amm.DeriveTranslation)", "label": "bounded",
+			"bound":       fmt.Sprintf("%d price ranges (1e-15 .. 5e6) x (%d x %d reserve magnitudes + %d bases x %d ratios x 4 placements)", len(ranges), len(mags), len(mags), len(bases), len(ratios)),
+			"evaluations": evals, "violating": bad, "known_finding_instances": knownHits,
+			"laws": []string{"min price <= price derived from the reserves <= max price (exactly)"},
+		}
+		sum["second_function_group"] = second
+		if knownHits > 0 {
+			sum["known_finding"] = map[string]interface{}{"obligation": "bounded/c06#ranged-price-within-range", "instances": knownHits, "example": knownExample}
+		}
+		b, _ := json.Marshal(sum)
+		os.WriteFile(out, b, 0o644)
+	}
+	if bad > 0 {
+		t.Fatalf("%d of %d reserve states put the pool price outside its range (beyond the %d listed known cases); first: %s", bad, evals, knownHits, firstBad)
+	}
+	t.Logf("bounded C06 ranged price: %d evaluations, %d known excursions", evals, knownHits)
 }
